@@ -287,6 +287,8 @@ def main(argv=None):
                                       'scheduling steps executed; "traces_validated_against_impl" counts complete executions of the real code'),
             'exhaustive': not tot.caps and getattr(_mod, 'EXHAUSTIVE', True),
             'bounds': _mod.bounds(args.tier) if hasattr(_mod, 'bounds') else {},
+            'exhaustive_within_bound': not tot.caps,
+            'bound_note': getattr(_mod, 'BOUND_NOTE', 'the finite space described in rule/bounds is enumerated completely'),
             'tasks': len(tasks),
             'distinct_outcomes': len(tot.outcomes),
             'outcomes': dict(sorted(tot.outcomes.items(), key=lambda kv: -kv[1])[:40]),
